@@ -150,6 +150,32 @@ pub struct IndInfo {
 	/// config -> tree -> config -> tree (+ Debug text before/after)
 	pub cfg_roundtrip: fn(&Value) -> Result<(Value, String, String), String>,
 	pub cfg_json_roundtrip: fn(&Value) -> Result<(Value, String, String), String>,
+	/// the accessors of every IndicatorResult of a static run agree with each other: Some(first discrepancy)
+	pub accessors: fn(&Value, &[In]) -> Result<Option<String>, String>,
+}
+
+/// size(), values_length(), signals_length(), values(), signals(), value(i), signal(i) of one result describe the same
+/// thing; an index at or beyond the respective length panics (documented)
+pub fn result_accessors(t: usize, r: &IndicatorResult) -> Option<String> {
+	let (nv, ns) = (r.values().len(), r.signals().len());
+	if r.size() != (nv as u8, ns as u8) || r.values_length() as usize != nv || r.signals_length() as usize != ns {
+		return Some(format!("result {t}: size() {:?}, values_length {}, signals_length {}, slices {nv}/{ns}", r.size(), r.values_length(), r.signals_length()));
+	}
+	for i in 0..4usize {
+		let v = crate::common::guarded(|| r.value(i));
+		match (i < nv, v) {
+			(true, Ok(x)) if x.to_bits() == r.values()[i].to_bits() => {}
+			(false, Err(_)) => {}
+			(inside, got) => return Some(format!("result {t}: value({i}) gives {got:?} ({} values; index {})", nv, if inside { "in range" } else { "out of range: must panic" })),
+		}
+		let a = crate::common::guarded(|| r.signal(i));
+		match (i < ns, a) {
+			(true, Ok(x)) if x == r.signals()[i] => {}
+			(false, Err(_)) => {}
+			(inside, got) => return Some(format!("result {t}: signal({i}) gives {got:?} ({} signals; index {})", ns, if inside { "in range" } else { "out of range: must panic" })),
+		}
+	}
+	None
 }
 
 fn cfg_of<C: DeserializeOwned>(v: &Value) -> Result<C, String> {
@@ -270,6 +296,18 @@ macro_rules! ind {
 			let c2: C = serde_json::from_str(&s).map_err(|e| format!("{e} on {s}"))?;
 			Ok((simfmt::to_value(&c2).map_err(|e| e.0)?, format!("{c:?}"), format!("{c2:?}")))
 		}
+		fn accessors(v: &Value, xs: &[In]) -> Result<Option<String>, String> {
+			let c = cfg_of::<C>(v)?;
+			let cs = candles(xs);
+			let mut inst = IndicatorConfig::init(c, &cs[0]).map_err(|e| format!("{e:?}"))?;
+			for (t, x) in cs.iter().enumerate() {
+				let r = IndicatorInstance::next(&mut inst, x);
+				if let Some(d) = result_accessors(t, &r) {
+					return Ok(Some(d));
+				}
+			}
+			Ok(None)
+		}
 		IndInfo {
 			name: $name,
 			inst_serde: $serde,
@@ -288,6 +326,7 @@ macro_rules! ind {
 			inst_meta,
 			cfg_roundtrip,
 			cfg_json_roundtrip,
+			accessors,
 		}
 	}};
 }
